@@ -246,6 +246,14 @@ def concurrent_pairs(ctx: Ctx, cases, terms):
         a["tag"], b["tag"] = "-a", "-b"
         a["name"] = ["Ok", "first", "ns1" if a["cfg"]["namespaced"] else None]
         b["name"] = ["Ok", "second", ctx.rng.choice(["ns1", "ns2"]) if a["cfg"]["namespaced"] else None]
+        # a SECOND definition of the same apiVersion/kind that disagrees about the scope (prepared after the
+        # first): the first, unchanged function must keep addressing its own namespace.  Only the first is
+        # judged (what the conflicting definition itself should do is not C06's business).
+        conflict = ctx.rng.random() < 0.25
+        if conflict:
+            b["cfg"]["namespaced"] = not a["cfg"]["namespaced"]
+            b["name"] = ["Ok", "second", "ns2" if b["cfg"]["namespaced"] else None]
+            b["live"] = None
         for sc in (a, b):
             if sc["live"] == "derive":
                 m.prepare_live(sc, ctx.rng)
@@ -255,8 +263,11 @@ def concurrent_pairs(ctx: Ctx, cases, terms):
             ctx.count("concurrent:prepare_failed")
             continue
         for sc, o in zip((a, b), obs):
+            if conflict and sc is b:
+                ctx.count("concurrent:scope-conflict-second-not-judged")
+                continue
             methods = tuple(x["m"] for x in o["calls"])
-            ctx.count("concurrent:" + ",".join(methods))
+            ctx.count("concurrent:" + ("scope-conflict:" if conflict else "") + ",".join(methods))
             ctx.note_case({"concurrent": True, "name": sc["name"], "template": sc["template"], "overlays": sc["overlays"]},
                           nontrivial=("POST" in methods or "PATCH" in methods))
             for sig, what in oracle(sc, o):
